@@ -10,7 +10,7 @@ CONSTANTS
   A2U <- ADeepBoth
   MaxEdges = 5
   Modes1 <- OnlyUnsup
-  ModesO <- AllModes
+  ModesO <- OnlyImpl
   QuerySet = "full"
 INVARIANT ImplRefinesReq
 CHECK_DEADLOCK FALSE
